@@ -236,8 +236,9 @@ func (m *OddPrimeSquareFactors) ModMul(out, a, b *numct.Nat) {
 
 // ModDiv computes out = (a / b) mod n^2.
 func (m *OddPrimeSquareFactors) ModDiv(out, a, b *numct.Nat) ct.Bool {
-	ok := m.ModInv(out, b)
-	m.ModMul(out, a, out)
+	var bInv numct.Nat // out may alias a
+	ok := m.ModInv(&bInv, b)
+	m.ModMul(out, a, &bInv)
 	return ok
 }
 
